@@ -520,6 +520,7 @@ def get_package_generator(
         convert_to_snake_case=settings.convert_to_snake_case,
         plugin_manager=plugin_manager,
         input_types_module_name=settings.input_types_module_name,
+        enums_module_name=settings.enums_module_name,
     )
     custom_fields_typing_generator = CustomFieldsTypingGenerator(schema=schema)
     custom_query_generator = None
